@@ -222,7 +222,7 @@ func checkKeepalive(c c33Case, s *clsim.Sim, r *vf.Result) {
 
 func TestC33(t *testing.T) {
 	vf.Check(t, vf.Prop[c33Case]{
-		ID: "C33", Name: "client-keepalive", Bubble: true,
+		ID: "C33", Name: "client-keepalive", Bubble: true, DeadlockIsViolation: true,
 		Rule: "real client with KeepAlive 2/3/5/30 s (RetryDelay 1 s, RetryCount 1-3) against a scripted gateway that answers everything but drops 0..RetryCount transmissions of selected keep-alive pings; 2-10 API calls (Sleep of 1-7 s, Disconnect, Publish QoS 0-2, Subscribe, Register, Ping, reconnect) separated by time advances drawn relative to the keep-alive period (K, K/2, K/4, 2K, 3K, 1 s; exactly, +-1 ns, +-1 ms, +0.5 s). Non-trivial = an API call starts within 1 s after a keep-alive PINGREQ, or a ping transmission is dropped; distinct by case.",
 		Assumptions: []string{"keep-alive PINGREQs carry no client ID, the wake-up PINGREQ carries it; Client.Ping() is called only while the client is active and has returned before the next call starts, so a PINGREQ without client ID seen while asleep or disconnected is a keep-alive ping (or a retransmission of one)", "RetryDelay (1 s) is below every KeepAlive used, so while the client is active two consecutive PINGREQ datagrams are never more than KeepAlive apart (+5 ms)", "the awake state (after Sleep returned, before reconnecting) is not judged"},
 		Gen:         genC33,
